@@ -591,8 +591,15 @@ func (e *Enc) verifyFunc(fn *ssa.Function, c *FuncContract) {
 		o := e.oblige("cover", "return reachable", True, retGuard, "some return is reachable", fn.Pos())
 		o.Expect = "sat"
 	}
+	for _, en := range c.TrustedEns {
+		e.noteAssumed(e.fnName + ": trusted postcondition (used by callers, not verified against the body): " + en.Src)
+	}
 	if !c.ModAll {
-		e.frameObligations(fr, c, rst, retGuard)
+		if c.Opts["frame"] == "assume" {
+			e.noteAssumed(e.fnName + ": the modifies clause is assumed, not verified (opt frame=assume)")
+		} else {
+			e.frameObligations(fr, c, rst, retGuard)
+		}
 	}
 }
 
@@ -659,7 +666,7 @@ func (e *Enc) verifyLoopBody(fn *ssa.Function, c *FuncContract, li *LoopInfo) {
 	o.Expect = "sat"
 	n0 := len(e.obls)
 	e.runRegion(fr, li, True, st)
-	if len(e.obls) == n0 && len(spec.BodyEns)+len(spec.ExitEns)+len(spec.DoneEns) > 0 {
+	if len(e.obls) == n0 && len(spec.BodyEns)+len(spec.ExitEns)+len(spec.DoneEns)+len(spec.BreakEns) > 0 {
 		panic(unsupported("loop-body contract produced no obligations"))
 	}
 }
